@@ -517,13 +517,39 @@ class SymExec:
                         else:
                             break
                     locs.setdefault(target, set()).add(() if whole else tuple(path))
+                # `&mut whole_local` handed to a local function that only touches / hands back some fields of it
+                # (an accessor like `x.field_mut(i)`): those fields, not the whole local
+                refined = {}
+                for b in blks:
+                    t_ = body.blocks[b]["term"]
+                    if t_["k"] != "call" or "fn" not in t_["callee"]:
+                        continue
+                    cn_ = t_["callee"].get("res") or t_["callee"]["fn"]
+                    if cn_ not in self.facts.bodies:
+                        continue
+                    for ai, a_ in enumerate(t_["args"]):
+                        if a_["k"] not in ("move", "copy") or a_["pl"]["p"]:
+                            continue
+                        al = a_["pl"]["l"]
+                        if al in ptrmap and not ptrmap[al]["p"] and body.locals[al]["ty"].startswith("&mut") \
+                                and "&mut" in self.facts.bodies[cn_].locals[0]["ty"]:
+                            fl = self.touched_fields(cn_, ai + 1)
+                            if fl is not None:
+                                refined.setdefault(al, set()).update(fl)
+                            else:
+                                refined[al] = None
                 for b in blks:
                     blk = body.blocks[b]
                     for s in blk["stmts"]:
                         if s["k"] in ("assign", "setdiscr"):
                             add(s["pl"])
                             if s["k"] == "assign" and s["rv"]["k"] in ("ref", "rawptr") and s["rv"]["mut"] and not s.get("env"):
-                                add(s["rv"]["pl"])
+                                dl = s["pl"]["l"] if not s["pl"]["p"] else None
+                                if dl is not None and refined.get(dl) is not None and dl in refined and not s["rv"]["pl"]["p"]:
+                                    for fl_ in sorted(refined[dl]):
+                                        add({"l": s["rv"]["pl"]["l"], "p": [{"f": 0, "n": fl_}]})
+                                else:
+                                    add(s["rv"]["pl"])
                     t = blk["term"]
                     if t["k"] == "call":
                         add(t["dest"])
@@ -536,6 +562,60 @@ class SymExec:
                 w[h] = (locs, mem)
             self._loopw[k] = w
         return self._loops[k], self._loopw[k]
+
+    def touched_fields(self, name, argi):
+        """top-level fields of the struct behind `&mut` parameter `argi` that function `name` may write or hand out a
+        mutable reference to; None when that cannot be narrowed down"""
+        key = ("touched", name, argi)
+        if key in self._modset:
+            return self._modset[key]
+        self._modset[key] = None
+        b = self.facts.bodies.get(name)
+        if b is None or argi > b.argc or not b.locals[argi]["ty"].startswith("&mut"):
+            return None
+        ms = self.modset(name)
+        wr = (ms or {}).get(argi)
+        if ms is None or wr is None:
+            return None
+        out = set(x for x in wr if x is not None)
+        if None in wr:
+            return None
+        if b.locals[0]["ty"].startswith("&mut") or "&mut" in b.locals[0]["ty"]:
+            # where may the returned reference point?  follow `&mut (*param).field...` through temporaries to _0
+            alias = {}
+            for blk in b.blocks:
+                if blk["cleanup"]:
+                    continue
+                for s in blk["stmts"]:
+                    if s["k"] != "assign" or s["pl"]["p"]:
+                        continue
+                    rv = s["rv"]
+                    src = None
+                    if rv["k"] in ("ref", "rawptr"):
+                        pl = rv["pl"]
+                        if pl["l"] == argi and pl["p"] and pl["p"][0] == "deref":
+                            fl = [q["n"] for q in pl["p"][1:] if isinstance(q, dict) and "f" in q]
+                            src = fl[0] if fl else "*"
+                        elif pl["l"] in alias and pl["p"] and pl["p"][0] == "deref":
+                            src = alias[pl["l"]]
+                    elif rv["k"] == "use" and rv["op"]["k"] in ("move", "copy") and not rv["op"]["pl"]["p"] and rv["op"]["pl"]["l"] in alias:
+                        src = alias[rv["op"]["pl"]["l"]]
+                    elif rv["k"] == "cast" and rv["op"]["k"] in ("move", "copy") and not rv["op"]["pl"]["p"] and rv["op"]["pl"]["l"] in alias:
+                        src = alias[rv["op"]["pl"]["l"]]
+                    if src is not None:
+                        alias[s["pl"]["l"]] = src
+                t_ = blk["term"]
+                if t_["k"] == "call" and not t_["dest"]["p"]:
+                    # a reference produced by an inner call (e.g. index_mut on a field reference)
+                    for a_ in t_["args"]:
+                        if a_["k"] in ("move", "copy") and not a_["pl"]["p"] and a_["pl"]["l"] in alias and b.locals[t_["dest"]["l"]]["ty"].startswith("&mut"):
+                            alias[t_["dest"]["l"]] = alias[a_["pl"]["l"]]
+            r = alias.get(0)
+            if r is None or r == "*":
+                return None
+            out.add(r)
+        self._modset[key] = out
+        return out
 
     def closure_writes(self, body, cl, depth=0):
         """places of `body` that a call of the closure held in local `cl` may write: pointees of upvars
@@ -1600,6 +1680,10 @@ class SymExec:
         if name == BB + "::is_empty":
             return bb_isempty(args[0])
         if name == BB + "::has":
+            sq_ = args[1]
+            if sq_[0] == "field" and sq_[2] == "0" and sq_[1][0] == "downcast" and sq_[1][2] == "Some" and sq_[1][1][0] == "call" \
+                    and sq_[1][1][1] == BB + "::next_square" and sq_[1][1][2] == (args[0],):
+                return TRUE            # the lowest member of a set is a member of it
             return ("has", args[0], args[1])
         if name == BB + "::is_disjoint":
             return bb_isempty(bb_bin("and", args[0], args[1]))
